@@ -1182,6 +1182,14 @@ static int parse_set(vnacal_load_state_t *vlsp, yaml_node_t *node)
      */
     {
 	bool valid = rows >= 1 && columns >= 1;
+	int ports = rows > columns ? rows : columns;
+
+	/*
+	 * The layout has up to 4 * ports^2 error terms, counted in int.
+	 */
+	if (ports > 0 && ports > INT_MAX / 4 / ports) {
+	    valid = false;
+	}
 
 	switch (type) {
 	case VNACAL_T8:
